@@ -20,6 +20,11 @@ import (
 // the short escapes \b \f \n \r \t \/, lone-surrogate escapes for U+FFFD, and — for non-empty
 // keys without control characters — the dot selector with every symbol backslash-escaped.
 // Positions: `$SEL`, `$..SEL`, `$SEL SEL` (nested), `$[?(@SEL == v)]`, `$[?(@SEL)]`, `$[SEL,'sib']`.
+// Pre-history (half of the cases): right before a quoted spelling is evaluated for the first time,
+// a filter whose STRING LITERAL has the same raw text between its quotes is parsed
+// (`$[?(@.x == '<raw>')]`, `$[?(@.x == "<raw>")]`; in a string literal a backslash merely quotes
+// the next character, so `\n` means `n` there but a newline in a key): what a key addresses must
+// not depend on what was parsed before. The parses are listed in the record (`history`).
 // Oracle: the Go map lookup — exactly that member's value, nothing else. Every sibling is
 // selected as well and must give its own value. Lean Spec.run is asked for three positions.
 
@@ -353,6 +358,33 @@ func (c16) Exec(seed int64, i int, tier string) Record {
 	}
 	spellings := c16Spellings(r, k)
 	want := []interface{}{obj[k]}
+	// the pre-history: a filter string literal with the raw text of the quoted selector
+	primeCase := r.Chance(50)
+	var history []string
+	primed := 0
+	prime := func(quoted string) {
+		if !primeCase || len(quoted) < 2 {
+			return
+		}
+		raw := quoted[1 : len(quoted)-1]
+		qs := []string{quoted[:1]}
+		switch r.Intn(10) {
+		case 0, 1: // the other kind of quotes (the literal may end early then: whatever Parse says is ignored)
+			qs = []string{map[string]string{"'": `"`, `"`: "'"}[quoted[:1]]}
+		case 2:
+			qs = []string{"'", `"`}
+		}
+		for _, q := range qs {
+			path := "$[?(@.x " + []string{"==", "!="}[r.Intn(2)] + " " + q + raw + q + ")]"
+			f, _ := SafeParse(path, nil)
+			if f != nil {
+				primed++
+			}
+			if len(history) < 24 {
+				history = append(history, path)
+			}
+		}
+	}
 	// documents for the positions
 	nested := map[string]interface{}{k: DeepCopy(obj)}
 	deep := []interface{}{[]interface{}{DeepCopy(obj)}}
@@ -367,6 +399,7 @@ func (c16) Exec(seed int64, i int, tier string) Record {
 	}
 	filtDoc := []interface{}{other, DeepCopy(obj), other2}
 	for si, s := range spellings {
+		prime(s.Bracket)
 		check("root", s.Name, "$"+s.child(sp()), obj, want)
 		check("after ..", s.Name, "$"+s.afterDesc(sp()), deep, want)
 		s2 := spellings[(si+1+r.Intn(len(spellings)))%len(spellings)]
@@ -379,6 +412,9 @@ func (c16) Exec(seed int64, i int, tier string) Record {
 			if r.Chance(50) {
 				sq = `"` + EscDouble(sb) + `"`
 			}
+			if r.Chance(50) {
+				prime(sq)
+			}
 			check("multi-name", s.Name, "$["+s.Bracket+sp()+","+sp()+sq+"]", obj, []interface{}{obj[k], obj[sb]})
 			check("multi-name", s.Name, "$["+sq+","+s.Bracket+"]", obj, []interface{}{obj[sb], obj[k]})
 		}
@@ -386,8 +422,11 @@ func (c16) Exec(seed int64, i int, tier string) Record {
 	// every sibling is a member too and must not be confused with the key
 	for _, sb := range sibs {
 		w := []interface{}{obj[sb]}
+		prime("'" + EscSingle(sb) + "'")
 		check("sibling", "single-minimal", "$['"+EscSingle(sb)+"']", obj, w)
-		check("sibling", "double-mixed", "$["+c16Quoted(r, sb, '"', 2)+"]", obj, w)
+		sq := c16Quoted(r, sb, '"', 2)
+		prime(sq)
+		check("sibling", "double-mixed", "$["+sq+"]", obj, w)
 		if c16DotOK(sb) {
 			check("sibling", "dot", "$."+EscDot(sb), obj, w)
 			check("sibling after ..", "dot", "$.."+EscDot(sb), deep, w)
@@ -413,6 +452,15 @@ func (c16) Exec(seed int64, i int, tier string) Record {
 		LeanQ{Driver: "spec", Line: "(q run " + pFilt.Sexp() + " " + ValSexp(filtDoc) + ")", Expect: okExp([]interface{}{filtDoc[1]}), What: "inside a filter vs Spec.run"})
 	for _, c := range classes {
 		rec.Tags = append(rec.Tags, "key:"+c)
+	}
+	if primeCase {
+		rec.Info["history"] = history
+		rec.Tags = append(rec.Tags, "history:filter-literal-with-the-selector's-raw-text")
+		if primed > 0 {
+			rec.Tags = append(rec.Tags, "history:literal-parsed")
+		}
+	} else {
+		rec.Tags = append(rec.Tags, "history:none")
 	}
 	n := utf8.RuneCountInString(k)
 	rec.Tags = append(rec.Tags, fmt.Sprintf("len:%d", n), fmt.Sprintf("siblings:%d", len(sibs)))
